@@ -1,6 +1,6 @@
 """Per-property check plans: which model configurations TLC explores and on
 which systems the emitted behaviours are replayed."""
-from .core import Report, tour_stage, walk_stage, chunk_stage
+from .core import Report, tour_stage, walk_stage, chunk_stage, crash_stage
 
 ALL4 = ["mem", "bolt", "multimem", "multios"]
 CORE_OPS = {"CreateBucket", "HeadBucket", "DeleteBucket", "ListBuckets", "PutObject", "GetObject", "HeadObject",
@@ -381,4 +381,29 @@ def c01(tier, seed, work):
     return rep
 
 
-PLANS = {"C11": c11, "C01": c01, "C12": c12, "C08": c08, "C16": c16, "C17": c17, "C02": c02, "C05": c05, "C03": c03, "C04": c04, "C13": c13, "C06": c06, "C14": c14}
+def c15(tier, seed, work):
+    rep = Report("C15", tier, seed)
+    st = dict(invariants=STORE_INVS, properties=STORE_PROPS)
+    # clean restart: after every mutating transition of the store model the backend is closed, a new
+    # one is constructed on the same storage, and the whole observable state is audited
+    tour_stage(rep, work, "reopen-2b-2k", "MC_Store", store_consts(OpNames=CORE_OPS),
+               ["bolt", "multios"], opts="boltsync", reopen=True, **st)
+    tour_stage(rep, work, "reopen-single", "MC_Store",
+               store_consts(CfgName="single", OpNames=(CORE_OPS | {"PutMetaB"}) - {"ListBuckets"}),
+               ["singleos"], reopen=True, **st)
+    tour_stage(rep, work, "reopen-rich-empty", "MC_Store",
+               store_consts(Buckets={"bkt1"}, WithEmpty=True, OpNames=CORE_OPS | {"PutMetaB", "PostObject"}),
+               ["bolt", "multios"], opts="boltsync", keys="rich", reopen=True, **st)
+    # crash points: every mutating transition killed at each of its mutating file-system calls
+    crash_stage(rep, work, "crash-multi", store_consts(Buckets={"bkt1"}, OpNames=CORE_OPS - {"ListBuckets", "HeadBucket"}),
+                ["multimem", "multios"])
+    crash_stage(rep, work, "crash-single",
+                store_consts(Buckets={"bkt1"}, CfgName="single", OpNames=CORE_OPS - {"ListBuckets", "HeadBucket", "CreateBucket", "DeleteBucket"}),
+                ["singlemem", "singleos"])
+    rep.assumptions += [
+        "clean restart = Close() of the bolt file / dropping the fs backend object, then constructing a new backend on the same file or directory",
+    ]
+    return rep
+
+
+PLANS = {"C11": c11, "C15": c15, "C01": c01, "C12": c12, "C08": c08, "C16": c16, "C17": c17, "C02": c02, "C05": c05, "C03": c03, "C04": c04, "C13": c13, "C06": c06, "C14": c14}
